@@ -193,6 +193,19 @@ CHECKS = {
         technique="TLA+ decoder position machine + BeaconGate grouping model-checked by TLC; TLC-rendered encodings replayed; decodings judged by TLC",
         design="4/C03",
     ),
+    "C14": dict(
+        specs=["ConfigValue.tla"],
+        text="ConfigValue.tla models one configuration under use histories (views, decoder construction with each key variant, "
+        "client dry run, profile generation, transform/recover, mutation attempts) with the action property that no use "
+        "changes the observable configuration and the invariant that every result equals the result on a fresh configuration; "
+        "the decoder constructor as first found is rejected by them. TLC enumerates every history up to the bound; each is "
+        "replayed on a real BeaconConfig twice (deep snapshot around every use / only at the end, so that cache state evolves as "
+        "in real use), every result compared with a fresh twin, every mapping mutation required to be rejected.",
+        note="Trusted: TLC for the enumeration, the harness snapshot (config block, settings tuple, four mappings with nested lists, "
+        "scalar and derived attributes). Randomness in client set-up is seeded.",
+        technique="TLA+ history model (TLC) + exhaustive short-history replay with deep snapshots on the real object",
+        design="4/C14",
+    ),
 }
 
 NOT_YET = "check not built yet in this round; planned in DESIGN.md section 4"
